@@ -568,6 +568,8 @@ func typeOfGuardedAgainstNil(c *core.Ctx) {
 								used = true // a method of the Type
 							} else if callee := x.Common().StaticCallee(); callee != nil && core.RepoFunc(callee) {
 								used = true
+							} else if callee != nil && callee.Pkg != nil && callee.Pkg.Pkg.Path() == "reflect" {
+								used = true // reflect.New, Zero, MakeSlice ... panic on a nil Type
 							}
 						default:
 							used = true
@@ -620,7 +622,8 @@ func typeOfGuardedAgainstNil(c *core.Ctx) {
 							}
 							any = true
 							callee := ci.Common().StaticCallee()
-							if callee == nil || callee.Blocks == nil || !nilTestsParam(callee, ci.Common().Args, call) {
+							// (a function of the repository: reflect's own functions test for nil in order to panic)
+							if callee == nil || callee.Blocks == nil || !core.RepoFunc(callee) || !nilTestsParam(callee, ci.Common().Args, call) {
 								all = false
 							}
 						}
